@@ -52,7 +52,10 @@ RULE = ("A: random (basin array, map, index) triples, scalar and 2-D features, m
         "names are exhausted. C: origins of 4-24 events (6 %: 257-290), chains of depth 1-4 mixing "
         "store_basin referrers (40 % of the mapped ones written chunk-wise: basin defined with the "
         "first chunk, map and features appended) "
-        "referrers and exports (filtered/unfiltered x file/child/grandchild x feature subsets; "
+        "referrers and exports (filtered/unfiltered x file/child/grandchild x feature list = "
+        "explicit subset of ordinary features (40 %) / features=None, i.e. everything stored in "
+        "the source incl. its own basinmapN features (40 %) / explicit list that also names map "
+        "features of the source (20 %), at every depth; "
         "40 % of the exports are preceded by 1-2 exports of the same dataset instances with "
         "kept / moved (same count) / new filters per hierarchy level), "
         "rtdc_copy of the last referrer with features = all / scalar / none / a list; "
@@ -70,7 +73,8 @@ TRUSTED_BASE = [
     "rejuvenating the same instances)",
     "the order in which Export.hdf5 hands the definitions to store_basin is not visible in the "
     "written file (records are keyed by hash): mapping names are compared with the model "
-    "(exportStore) up to a renaming; that each name holds the right map is compared exactly"]
+    "(exportStoreFrom, started from the map features that the export's feature list names) up to "
+    "a renaming; that each name holds the right map is compared exactly"]
 ASSUMPTIONS = [
     "all basinmap features of one file have the same length (numpy == broadcasts a length-1 map "
     "against any other in store_basin's reuse test); a streaming writer appends to every map "
@@ -84,7 +88,9 @@ ASSUMPTIONS = [
     "order between incoherent basins is covered by C14"]
 NOT_PROVED = [
     "remote basin formats (no network; C14/C19 cover their logic), availability-check threads",
-    "hierarchy child = filtered view of the parent (C04); Export.hdf5 feature writing (C02)",
+    "hierarchy child = filtered view of the parent (C04); Export.hdf5 feature writing (C02): that "
+    "an exported basinmapN feature holds the source's map at the exported events is an input of "
+    "exportStoreFrom computed by the harness, not a theorem",
     "copier.basin_definition_copy / rtdc_copy are modelled by what the copy shows (copyFile: "
     "selected stored features, restricted / dropped internal definitions, file definitions "
     "verbatim); the JSON rewriting and re-hashing of a restricted internal record and the "
@@ -102,6 +108,32 @@ KEEP = "frame"
 INTF = "userdef1"
 FID = {f: i for i, f in enumerate(SCALARS + [KEEP, INTF, "image"])}
 UNIV = range(0, 400)
+
+
+_TOKEN_TABLES = {}
+
+
+def tokens_of(feat, values, universe=UNIV):
+    """`gen.tokens_of` with the payload table of the (fixed) token universe built once per feature
+    (the table was 30 % of the CPU time of part C)"""
+    if universe is not UNIV:
+        return gen.tokens_of(feat, values, universe)
+    ent = _TOKEN_TABLES.get(feat)
+    if ent is None:
+        table = {}
+        for t in UNIV:
+            p = gen.payload(feat, t)
+            if feat == "mask":
+                p = np.asarray(p, dtype=bool)
+            table[np.asarray(p).tobytes()] = t
+        ent = _TOKEN_TABLES[feat] = (table, np.asarray(gen.payload(feat, 0)).dtype)
+    table, dtype = ent
+    out = []
+    for v in values:
+        a = np.asarray(v)
+        a = (a != 0) if feat == "mask" else a.astype(dtype, copy=False)
+        out.append(table.get(a.tobytes()))
+    return out
 
 
 def L(xs):
@@ -498,6 +530,7 @@ class FileInfo:
         self.path0 = self.path
         self.n = 0
         self.offline = False
+        self.internal = False  # INTF is served by an internal basin (group basin_events)
 
 
 def read_tokens(ds, feat, how="[:]"):
@@ -506,7 +539,7 @@ def read_tokens(ds, feat, how="[:]"):
         v = obj[:]
     else:
         v = np.asarray(obj)
-    return gen.tokens_of(feat, v, UNIV)
+    return tokens_of(feat, v, UNIV)
 
 
 ACCESS = ["int", "neg", "slice", "mask", "arr", "asarray"]
@@ -578,22 +611,22 @@ def access_check(rng, ds, feat, want):
     for how in rng.sample(ACCESS, 3):
         try:
             if how == "asarray":
-                got = gen.tokens_of(feat, np.asarray(obj), UNIV)
+                got = tokens_of(feat, np.asarray(obj), UNIV)
                 exp = want
             elif how in ("int", "neg"):
                 if n == 0:
                     continue
                 i = rng.randrange(n) if how == "int" else -rng.randint(1, n)
-                got = gen.tokens_of(feat, [obj[i]], UNIV)
+                got = tokens_of(feat, [obj[i]], UNIV)
                 exp = [want[i]]
             elif how == "slice":
                 a, b = rng.randint(-n - 1, n + 1), rng.randint(-n - 1, n + 1)
                 s = slice(rng.choice([None, a]), rng.choice([None, b]), rng.choice([None, 1, 2]))
-                got = gen.tokens_of(feat, obj[s], UNIV)
+                got = tokens_of(feat, obj[s], UNIV)
                 exp = want[s]
             elif how == "mask":
                 m = np.array([rng.random() < 0.5 for _ in range(n)], dtype=bool)
-                got = gen.tokens_of(feat, obj[m], UNIV)
+                got = tokens_of(feat, obj[m], UNIV)
                 exp = [w for w, k in zip(want, m) if k]
             else:
                 if n == 0:
@@ -602,7 +635,7 @@ def access_check(rng, ds, feat, want):
                     a = [rng.randint(-n, n - 1) for _ in range(rng.randint(1, n + 2))]
                 else:
                     a = sorted(set(rng.randrange(n) for _ in range(rng.randint(1, n))))
-                got = gen.tokens_of(feat, obj[np.array(a, dtype=int)], UNIV)
+                got = tokens_of(feat, obj[np.array(a, dtype=int)], UNIV)
                 exp = [want[i] for i in a]
         except Exception as e:  # noqa
             if is_proxy or how in ("int", "neg", "asarray"):
@@ -763,6 +796,7 @@ class Scenario:
         if internal is not None:
             fi.show[INTF] = [internal[0][i] for i in internal[1]]
             fi.innate.add(INTF)         # stored in the file (group basin_events)
+            fi.internal = True
         self.desc.append(("store", ref.fid, kind + ("/streamed" if cuts else ""), tuple(m or ()),
                           tuple(explicit or ()),
                           tuple(sorted((f, tuple(t)) for f, t in innate.items())),
@@ -854,6 +888,22 @@ class Scenario:
         feats += rng.sample(cand, min(len(cand), rng.randint(0 if feats else 1, 2)))
         if not feats:
             feats = [avail[0]]
+        # The feature list of the call: an explicit list of ordinary features, the default
+        # (`features=None`: everything stored in the source itself, which for a referrer includes
+        # its own `basinmapN` features) or an explicit list that also names map features of the
+        # source — at every depth of the chain.
+        ref_maps = self.file_map_feats(ref.path)
+        mode = rng.choice(["list", "list", "default", "default", "list+maps"])
+        if mode == "list+maps" and not ref_maps:
+            mode = "list"
+        map_names = []
+        if mode == "default":
+            feats = sorted(f for f in ref.innate if f in FID and not (f == INTF and ref.internal))
+            map_names = sorted(ref_maps)
+        elif mode == "list+maps":
+            map_names = sorted(rng.sample(sorted(ref_maps), rng.randint(1, len(ref_maps))))
+        feats_arg = None if mode == "default" else feats + [f"basinmap{k}" for k in map_names]
+        self.ctx.stat(f"C:export:features:{mode}" + (":with-maps" if map_names else ""))
         c2r = None
         mask = None
         dss = []
@@ -892,7 +942,9 @@ class Scenario:
                     ds.apply_filter()
                 last = rnd == rounds - 1
                 path = fi.path if last else fi.path.with_name(f"side{rnd}_{fi.path.name}")
-                ds.export.hdf5(path, features=feats, filtered=filtered, basins=True)
+                ds.export.hdf5(path, features=feats_arg, filtered=filtered, basins=True)
+                pre = "|".join(f"{k}:{L(ref_maps[k][i] for i in cur_idx)}" for k in map_names)
+                defs_arg = (" " + pre) if pre else ""
                 if not last:
                     self.n_side += 1
                     self.ctx.stat(f"C:re-export-history:child{levels}")
@@ -902,11 +954,11 @@ class Scenario:
                               f"{'x' if c2r is None else L(c2r)} "
                               f"{'x' if not filtered else bits(mask)}",
                               ("maps", sorted(self.file_maps(path))))
-                    self.emit(f"defs {500 + self.n_side}", ("defs", self.file_defs(path)))
+                    self.emit(f"defs {500 + self.n_side}{defs_arg}", ("defs", self.file_defs(path)))
                     os.unlink(path)
                     self.desc.append(("export", ref.fid, levels, filtered, tuple(c2r or ()),
-                                      tuple(mask or ()) if filtered else None, tuple(feats),
-                                      "side"))
+                                      tuple(mask or ()) if filtered else None,
+                                      tuple(feats) + (mode,) + tuple(map_names), "side"))
         except Exception as e:  # noqa
             err = e
         finally:
@@ -916,7 +968,8 @@ class Scenario:
                 except Exception:
                     pass
         self.desc.append(("export", ref.fid, levels, filtered, tuple(c2r or ()),
-                          tuple(mask or ()) if filtered else None, tuple(feats)))
+                          tuple(mask or ()) if filtered else None,
+                          tuple(feats) + (mode,) + tuple(map_names)))
         if levels or filtered:
             self.nontrivial = True
         if err is not None:
@@ -936,7 +989,7 @@ class Scenario:
         self.emit(f"export {fi.fid} {ref.fid} {L(FID[f] for f in feats)} "
                   f"{'x' if c2r is None else L(c2r)} {'x' if not filtered else bits(mask)}",
                   ("maps", maps))
-        self.emit(f"defs {fi.fid}", ("defs", self.file_defs(fi.path)))
+        self.emit(f"defs {fi.fid}{defs_arg}", ("defs", self.file_defs(fi.path)))
         return fi, None
 
     @staticmethod
@@ -953,6 +1006,17 @@ class Scenario:
                     out.append(f"{bd['mapping'][8:]}={L(h5['events'][bd['mapping']][:])}")
                 else:
                     out.append(f"{bd['mapping'][8:]}=missing")
+        return out
+
+    @staticmethod
+    def file_map_feats(path):
+        """the map features stored in a file: {N: content of basinmapN}"""
+        import h5py
+        out = {}
+        with h5py.File(path, "r") as h5:
+            for name in h5.get("events", []):
+                if name.startswith("basinmap") and name[8:].isdigit():
+                    out[int(name[8:])] = [int(x) for x in h5["events"][name][:]]
         return out
 
     @staticmethod
@@ -984,6 +1048,12 @@ class Scenario:
         except Exception as e:  # noqa
             return [("<open>", repr(e)[:100])]
         touched = []
+        # a re-read of a warmed mapped proxy gathers event by event through every level of the
+        # chain: about n_k * n_(k-1) * ... * n_1 reads of the origin
+        cost, up = 1, fi
+        while up.ref is not None:
+            cost, up = cost * max(up.n, 1), up.ref
+        heavy = cost > 200000
         try:
             for f in sorted(FID):
                 want = fi.show.get(f)
@@ -1021,18 +1091,22 @@ class Scenario:
                         self.ctx.stat("C:reloc:served")
                     if got != want:
                         probs.append((f, f"[:] got {got[:14]} want {want[:14]}"))
+                    elif heavy and f not in fi.innate:
+                        # every re-read of a warmed mapped proxy gathers event by event through
+                        # all levels (n ** depth reads): one whole-array read per feature
+                        self.ctx.stat("C:observe:first-read-only")
                     else:
                         for how, what in access_check(self.rng, ds, f, want):
                             probs.append((f, f"{how}: {what}"))
                         if not tolerant:
                             def read_all(obj, f=f, want=want):
                                 try:
-                                    if gen.tokens_of(f, obj[:], UNIV) != want:
+                                    if tokens_of(f, obj[:], UNIV) != want:
                                         return "[:] changed"
-                                    if gen.tokens_of(f, np.asarray(obj), UNIV) != want:
+                                    if tokens_of(f, np.asarray(obj), UNIV) != want:
                                         return "asarray changed"
                                     k = self.rng.randrange(len(want))
-                                    if gen.tokens_of(f, [obj[k]], UNIV) != [want[k]]:
+                                    if tokens_of(f, [obj[k]], UNIV) != [want[k]]:
                                         return "int changed"
                                 except Exception as e:  # noqa
                                     return f"raised {e!r}"[:80]
@@ -1464,7 +1538,7 @@ def part_d(ctx):
             if with_temp:
                 ds._usertemp[INTF] = gen.rows(INTF, temp_tok)
             try:
-                got = gen.tokens_of(INTF, ds[INTF][:], UNIV)
+                got = tokens_of(INTF, ds[INTF][:], UNIV)
             except Exception as e:  # noqa
                 got = common.err_class(e)
         want = innate_tok if with_innate else temp_tok if with_temp else int_tok if with_int else o_tok
@@ -1531,7 +1605,7 @@ def part_e(ctx):
         try:
             with dclab.new_dataset(d / "r.rtdc") as ds:
                 if feat in ds:
-                    got = gen.tokens_of(feat, np.atleast_1d(ds[feat][idx]), UNIV)
+                    got = tokens_of(feat, np.atleast_1d(ds[feat][idx]), UNIV)
                 else:
                     got = "err:unavailable"
         except Exception as e:  # noqa
@@ -1594,14 +1668,23 @@ def compare(ctx, lines, expect, out):
             elif real == model:
                 ctx.stat("C:defs:names-equal")
             else:
+                # map features already written by the feature loop (`defs <id> <k>:<map>|…`): the
+                # set of names is independent of the writing order only if those names are
+                # 0..p-1 (a free name below a written feature with equal content is taken by
+                # whichever definition comes first)
+                parts = ln.split()
+                pre = [e.split(":")[0] for e in parts[2].split("|")] if len(parts) > 2 else []
+                gapfree = sorted(pre) == [str(i) for i in range(len(pre))]
+
                 def canon(entries):
                     names = sorted(e.split("=")[0] for e in entries if e != "same")
                     cont = sorted(e.split("=", 1)[1] if e != "same" else "same" for e in entries)
                     dist = sorted(set(names))
-                    return cont, len(dist), dist == [str(i) for i in range(len(dist))], \
+                    return cont, len(dist), (dist if gapfree else None), \
+                        (dist == [str(i) for i in range(len(dist))] if not pre else None), \
                         len(set(e for e in entries if e != "same")) == len(dist)
                 if canon(real) == canon(model):
-                    ctx.stat("C:defs:names-permuted")
+                    ctx.stat("C:defs:names-permuted" + ("" if gapfree else ":gapped-pre"))
                 else:
                     diffs.append((ln[:160], real, got[:200]))
         elif isinstance(ex, tuple) and ex[0] == "proxy-inv":
